@@ -24,6 +24,9 @@ def main():
         else:
           for k in range(0, len(spec), 3):
             f, old, new = spec[k:k + 3]
+            if os.path.isabs(f):
+                # os.path.join would drop the scratch prefix and the mutation would land in the real repository
+                sys.exit("MUTANT: give the file relative to the repository root, not %r" % f)
             p = os.path.join(d, "r", f)
             s = open(p, newline="").read()
             if "\r\n" in s:
